@@ -68,8 +68,8 @@ SPEC = {
         "cache write-backs are compared with the same simulator (a dirty line is written back once when it leaves, "
         "a bypassed write is written through), under their own violation keys",
         "violation keys carry the input class of the run (multi-binding; write-traced bindings whose rank extents "
-        "differ; read and write rows of different lines on one stamp; staging lines beside another binding of "
-        "the same rank) so that one mechanism maps to one key; the class never excuses a violation",
+        "differ; read and write rows of different lines on one stamp; staging lines beside another "
+        "binding) so that one mechanism maps to one key; the class never excuses a violation",
         "overflow counts are not part of the statement; only `unbounded capacity -> 0 overflows` is looked at",
     ],
 }
@@ -121,7 +121,7 @@ def generate(rng, tier, shard, nshards, mon):
                 idx += 1
     mon.exhaustive[f"buffet-seqs-len{maxlen}-2lines-all-window-splits"] = True
 
-    nrand = (4000 if quick else 60000) // nshards
+    nrand = (4000 if quick else 50000) // nshards
     for _ in range(nrand):
         r = rng.random()
         if r < 0.46:
@@ -783,8 +783,8 @@ def _run_model_case(case, mon, tmp, files=None, tagx=""):
                     cls = ftag
                 elif shift:
                     cls = ":rw-rows-of-different-lines-share-a-stamp"
-                elif staging and same_rank:
-                    cls = ":staging-lines-beside-another-binding-of-the-rank"
+                elif staging and multi:
+                    cls = ":staging-lines-beside-another-binding"
                 else:
                     cls = tag
                 mon.violation(f"cacheTraffic:raised:{type(res).__name__}{cls}",
